@@ -267,9 +267,10 @@ def gen_op(c, rng, step):
         return op, (lambda c: c.replace_inputs(tt, ff)), [op, tt, ff], True
     if op in ('connect_right', 'connect_circuit_right', 'connect_left', 'connect_circuit_left', 'connect_inputs',
               'extend_circuit', 'add_circuit'):
-        onet = _small_other(rng, 'o%d' % step)
+        # small pools of tags and block names: label / block-name reuse after deletions is part of the histories
+        onet = _small_other(rng, rng.choice(['oa', 'ob', 'oc']) if rng.random() < 0.5 else 'o%d' % step)
         other_desc = netgen.describe(onet)
-        name = '' if rng.random() < 0.45 else 'B%d_%d' % (step, rng.randrange(1000))
+        name = '' if rng.random() < 0.4 else (rng.choice(['B0', 'B1', 'B2']) if rng.random() < 0.6 else 'B%d_%d' % (step, rng.randrange(1000)))
         add_prefix = rng.random() < 0.7
         kw = {'name': name, 'add_prefix': add_prefix}
 
